@@ -838,6 +838,12 @@ func (d *refreshDebouncer) debounce() {
 func (d *refreshDebouncer) refreshNow() <-chan error {
 	d.mu.Lock()
 	defer d.mu.Unlock()
+	if d.stopped {
+		// the flusher has returned or is about to: nobody would answer this request
+		ch := make(chan error)
+		close(ch)
+		return ch
+	}
 	if d.broadcaster == nil {
 		d.broadcaster = newErrorBroadcaster()
 		select {
